@@ -353,7 +353,15 @@ def InlineSub(obj:Logic):
     return "assign {} = {} - {};\n".format(getParentWireName(obj, obj.r), getParentWireName(obj, obj.a) , getParentWireName(obj, obj.b))
 
 def InlineEqualConstant(obj:Logic):
-    return "assign {} = ({} == {})? 1 : 0;\n".format(getParentWireName(obj, obj.r), getParentWireName(obj, obj.a), obj.v )
+    w = obj.a.getWidth()
+    v = obj.v
+    if (v < 0) or (v >= (1 << w)):
+        # the constant does not fit in the operand, they are never equal (as in EqualConstant)
+        return "assign {} = 0;\n".format(getParentWireName(obj, obj.r))
+    if (v >= (1<<31)):
+        # an unsized literal is only guaranteed to hold 32 bits, so size it explicitly
+        v = "{}'d{}".format(w, v)
+    return "assign {} = ({} == {})? 1 : 0;\n".format(getParentWireName(obj, obj.r), getParentWireName(obj, obj.a), v )
 
 def InlineRange(obj:Logic):
     return "assign {} = {}[{}:{}];\n".format(getParentWireName(obj, obj.r), getParentWireName(obj, obj.a) , obj.high, obj.low)
